@@ -221,6 +221,75 @@ func c03Mutations(g c03Group, yield func(i int, desc string, mk func() []byte) b
 				}
 			}
 		}
+	case "payload-head-words":
+		// multi-byte fields: every offset in the first Arg bytes of codec data x width 2,3,4 x both
+		// byte orders x values tied to the block geometry (codec headers store lengths/indexes so)
+		for bi := range ks.Blocks {
+			b := ks.Blocks[bi]
+			pre := b.PreLen
+			bsz := uint64(g.P.Block)
+			for k := 0; k < g.Arg; k++ {
+				for _, w := range []int{2, 3, 4} {
+					if b.DataBit+8*(k+w) > b.PayloadBit+b.PayloadBits {
+						continue
+					}
+					top := uint64(1)<<uint(8*w) - 1
+					for _, v := range []uint64{0, 1, pre - 1, pre, pre + 1, pre + 16, bsz, bsz + 1, top, top >> 1, top>>1 + 1} {
+						if v > top {
+							continue
+						}
+						for _, le := range []bool{false, true} {
+							bi, k, w, v, le := bi, k, w, v, le
+							if !emit(fmt.Sprintf("block %d codec data bytes %d..%d = %d (little-endian=%v)", bi+1, k, k+w-1, v, le), func() []byte {
+								o := clone()
+								for i := 0; i < w; i++ {
+									sh := uint(8 * (w - 1 - i))
+									if le {
+										sh = uint(8 * i)
+									}
+									putBits(o, b.DataBit+8*(k+i), 8, v>>sh&0xFF)
+								}
+								return o
+							}) {
+								return nil
+							}
+						}
+					}
+				}
+			}
+		}
+	case "bwt-index":
+		// BWT block header (format 6): mode byte (log2(chunks) in bits 4..2, index size-1 in bits
+		// 1..0) followed by chunks x size bytes, each the chunk's primary index minus one.
+		for bi := range ks.Blocks {
+			b := ks.Blocks[bi]
+			mode := getBits(stream, b.DataBit, 8)
+			chunks := 1 << (mode >> 2 & 7)
+			isz := int(mode&3) + 1
+			hdr := chunks*isz + 1
+			count := int(b.PreLen) - hdr
+			if count <= 0 {
+				continue
+			}
+			top := uint64(1)<<uint(8*isz) - 1
+			for ci := 0; ci < chunks; ci++ {
+				off := b.DataBit + 8*(1+ci*isz)
+				old := getBits(stream, off, 8*isz)
+				for _, v := range []uint64{0, 1, old - 1, old + 1, uint64(count) - 2, uint64(count) - 1, uint64(count), uint64(count) + 1, uint64(count+hdr) - 2, uint64(count+hdr) - 1, uint64(count + hdr), top, top >> 1} {
+					if v > top || v == old {
+						continue
+					}
+					bi, ci, v := bi, ci, v
+					if !emit(fmt.Sprintf("block %d BWT chunk %d stored index %d -> %d (block of %d bytes, header %d)", bi+1, ci, old, v, count, hdr), func() []byte {
+						o := clone()
+						putBits(o, off, 8*isz, v)
+						return o
+					}) {
+						return nil
+					}
+				}
+			}
+		}
 	case "payload-stride":
 		for bi := range ks.Blocks {
 			b := ks.Blocks[bi]
@@ -459,7 +528,7 @@ var famC03 = NewFamily("C03.group", func(g c03Group) (*Fail, bool) {
 
 func init() {
 	register("C03", "fault_enumeration", func(c *Ctx) {
-		c.Rule("seed streams = every transform x {NONE,HUFFMAN} and every entropy codec (B=1024, 4 blocks) + larger blocks + a 4 MiB+ BWT block; mutation classes, each enumerated completely: every header field x boundary values (all 32 entropy ids, every transform slot x 0..63, versions, checksum size, block sizes incl. 1 GiB, size hints) with the header checksum recomputed and not; per block every length width 3..34 x boundary lengths; all 256 mode bytes and all 256 second bytes; pre-entropy length boundaries; every byte of the first 48 bytes of codec data x 8 substitutions; bit flips on a stride; truncations on a stride; garbage. Reader jobs {1,2,8}. Each case runs in a worker process: oracle = the worker survives (no panic/fatal error, also from helper goroutines), answers within the silence watchdog (120 s), no panic escapes Read, no goroutine is left alive after Close. Non-trivial = the mutation changed the outcome (error or no clean EOF)")
+		c.Rule("seed streams = every transform x {NONE,HUFFMAN} and every entropy codec (B=1024, 4 blocks) + larger blocks + a 4 MiB+ BWT block; mutation classes, each enumerated completely: every header field x boundary values (all 32 entropy ids, every transform slot x 0..63, versions, checksum size, block sizes incl. 1 GiB, size hints) with the header checksum recomputed and not; per block every length width 3..34 x boundary lengths; all 256 mode bytes and all 256 second bytes; pre-entropy length boundaries; every byte of the first 32-48 bytes of codec data x 8 substitutions; every 2/3/4-byte field in the first 8-24 bytes x both byte orders x values tied to the block geometry; every BWT chunk primary index x boundary values around the block length (> 4 MiB block); bit flips on a stride; truncations on a stride; garbage. Reader jobs {1,2,8}. Each case runs in a worker process: oracle = the worker survives (no panic/fatal error, also from helper goroutines), answers within the silence watchdog (120 s), no panic escapes Read, no goroutine is left alive after Close. Non-trivial = the mutation changed the outcome (error or no clean EOF)")
 		c.Assume("forged sizes are kept where legitimate allocation stays below the worker's 40 GiB address-space limit")
 		var groups []c03Group
 		add := func(g c03Group) { g.Only = -1; groups = append(groups, g) }
@@ -491,6 +560,7 @@ func init() {
 				add(c03Group{P: p, Shape: sh, Len: 3*4096 + 500, Jobs: j, Class: "payload-head", Arg: pick(c, 32, 48)})
 				add(c03Group{P: p, Shape: sh, Len: 3*4096 + 500, Jobs: j, Class: "payload-stride", Arg: pick(c, 127, 13)})
 			}
+			add(c03Group{P: p, Shape: sh, Len: 4096 + 500, Jobs: 2, Class: "payload-head-words", Arg: pick(c, 8, 24)})
 			if c.Thorough() || (k.t == "NONE" && k.e == "NONE") || (k.t == "LZ" && k.e == "HUFFMAN") || (k.t == "BWT" && k.e == "NONE") || (k.t == "TEXT" && k.e == "NONE") || (k.t == "NONE" && k.e == "ANS0") {
 				add(c03Group{P: p, Shape: sh, Len: 4096 + 500, Jobs: 1, Class: "modebyte"})
 			}
@@ -511,6 +581,12 @@ func init() {
 		for _, t := range pick(c, []string{"BWT"}, []string{"BWT", "BWTS", "TEXT+UTF+BWT+RANK+ZRLT"}) {
 			p := Params{t, "NONE", 8 << 20, 1, 0, -1, false}
 			for sh := 0; sh < 8; sh++ {
+				if t == "BWT" {
+					add(c03Group{P: p, Shape: "text", Len: 4<<20 + 4096, Jobs: pick(c, uint(1), uint(4)), Class: "bwt-index", Shard: sh, Shards: 8})
+					if c.Thorough() {
+						add(c03Group{P: p, Shape: "text", Len: 8<<20 - 1, Jobs: 2, Class: "bwt-index", Shard: sh, Shards: 8})
+					}
+				}
 				add(c03Group{P: p, Shape: "text", Len: 4<<20 + 4096, Jobs: pick(c, uint(1), uint(4)), Class: "payload-head", Arg: pick(c, 28, 40), Shard: sh, Shards: 8})
 			}
 		}
